@@ -174,7 +174,33 @@ def _run_base(ctx):
         wr = [(c, m) for c, m in opens if m is not None and m is not NOVAL and any(ch in str(m) for ch in 'wax+')]
         rd = [(c, m) for c, m in opens if (c, m) not in wr]
         if len(wr) != 1 or not rd:
-            raise AnalysisError('%s: expected one read-open and one write-open of the attributes file' % fid)
+            # the read/append may live in a shared helper: judge what can be judged there -- is the user's existing content preserved byte for byte?
+            hopens = []
+            for c in calls_in(en, nested=False):
+                for t in cg.resolve(c.func, en):
+                    if t[0] == 'func' and t[1].startswith('nbdime.') and t[1] in repo.functions and t[1] != fid:
+                        h = repo.functions[t[1]]
+                        for oc in calls_in(h, nested=False):
+                            if dotted(oc.func) in ('open', 'io.open', 'codecs.open'):
+                                kw = {k.arg: const_val(k.value) for k in oc.keywords}
+                                mode = const_val(oc.args[1]) if len(oc.args) > 1 else kw.get('mode', 'r')
+                                hopens.append((t[1], oc, str(mode), kw))
+            hw = [x for x in hopens if any(ch in x[2] for ch in 'wax+')]
+            hr = [x for x in hopens if x not in hw]
+            if not hw:
+                raise AnalysisError('%s: expected one read-open and one write-open of the attributes file (here or in a helper it calls)' % fid)
+            for hf, oc, mode, kw in hw:
+                if 'a' in mode:
+                    ctx.inst('R18.4', hf, repo.norm(oc), True, 'attributes file opened in append mode (helper of %s)' % fid, oc)
+                    continue
+                lossless = bool(hr) and all('b' in m or (k.get('newline') == '' and k.get('errors') in ('surrogateescape',)) for _, _, m, k in hr)
+                ctx.inst('R18.4', hf, repo.norm(oc), lossless,
+                         'the file is rewritten from content read back losslessly (binary, or newline=\'\' with surrogateescape)' if lossless else
+                         'the attributes file is REWRITTEN (mode %r) from text read with %s: CRLF line endings are translated and undecodable bytes replaced, so the user\'s '
+                         'existing rules are altered (a rule for a non-UTF-8 file name stops matching)' % (
+                             mode, ', '.join('mode %r errors=%r newline=%r' % (m, k.get('errors'), k.get('newline')) for _, _, m, k in hr) or 'nothing'), oc)
+            ctx.inst('R18.4', fid, 'attributes handling delegated to a helper', True, 'text/marker/ordering checks of the inline form are not judged for the helper form', en, nontrivial=False)
+            continue
         wc, mode = wr[0]
         ok = mode in ('a', 'at', 'a+')
         ctx.inst('R18.4', fid, repo.norm(wc), ok, 'attributes file opened in append mode' if ok else
